@@ -46,6 +46,12 @@ func (c *Softmax) forward(x tensor.Tensor) (y tensor.Tensor, err error) {
 		return
 	}
 
+	// re-insert the reduced dimension so the normaliser lines up with 'Dim'
+	s, err = s.UnSqueeze(c.dim)
+	if err != nil {
+		return
+	}
+
 	return x.Div(s)
 }
 
